@@ -121,6 +121,13 @@ func vBtcDrawTx(expected []byte) string {
 	return hex.EncodeToString(buf.Bytes())
 }
 
+// vBtcChain: the only field the adapter's address construction reads is the segwit HRP.  (A
+// harness-made value instead of &chaincfg.RegressionNetParams: a global of a package that is not
+// executed is havocked by the engine, which forks on each of its pointer fields.)
+func vBtcChain() *chaincfg.Params {
+	return &chaincfg.Params{Name: "regtest", Bech32HRPSegwit: "bcrt"}
+}
+
 // vBtcFirstMatch: index of the first output whose value equals the amount, -1 if none.
 func vBtcFirstMatch(amount uint64) int {
 	for i, o := range vBtcOutputs {
@@ -139,7 +146,7 @@ func vBtcFirstMatch(amount uint64) int {
 func H_C01_btcValidateTx() {
 	zzverif.Unwind(8)
 	p := vBtcDrawParams()
-	b := NewBitcoinOnChain(nil, 0, 0, &chaincfg.RegressionNetParams)
+	b := NewBitcoinOnChain(nil, 0, 0, vBtcChain())
 	expected := vBtcExpectedScript(p)
 	txHex := vBtcDrawTx(expected)
 
@@ -169,7 +176,7 @@ func H_C01_btcValidateTx() {
 func H_C08_btcGetVoutAndVerify() {
 	zzverif.Unwind(8)
 	p := vBtcDrawParams()
-	b := NewBitcoinOnChain(nil, 0, 0, &chaincfg.RegressionNetParams)
+	b := NewBitcoinOnChain(nil, 0, 0, vBtcChain())
 	expected := vBtcExpectedScript(p)
 	txHex := vBtcDrawTx(expected)
 
@@ -191,4 +198,152 @@ func H_C08_btcGetVoutAndVerify() {
 	}
 	ok2, _ := b.ValidateTx(p, txHex)
 	zzverif.Assert(ok2 == ok, "C08.btc_verdict_agrees_with_validatetx")
+}
+
+// ---------------------------------------------------------------------------------------
+// Script classes.  The entries above draw an output script either as the expected script or as
+// one opaque byte string; code that *parses* a script (btcd's tokenizer indexes a 256-entry
+// opcode table with the script bytes) cannot run on an opaque string.  The entries below decide
+// the same obligation with scripts drawn from concrete-structured classes so that txscript's
+// helpers execute on concrete opcode bytes.  The swap keys and payment hash are fixed (two
+// concrete 33-byte keys, one 32-byte hash: the byte-level script content is C02's subject and
+// arbitrary keys are covered by H_C01_btcValidateTx); SHA-256 of a constant is computed by the
+// engine, so the expected script 0x00 0x20 <H> is the same concrete value symbolically and
+// natively, and every variant is derived from its bytes:
+//
+//	exact         0x00 0x20 <H>
+//	otherVersion  OP_v 0x20 <H>           v in 1..16: right program, wrong witness version
+//	otherProgram  0x00 0x20 <P>           P = H with its first, a middle or its last byte inverted
+//	p2wpkh        0x00 0x14 <K>           K = first or last 20 bytes of H
+//	nonWitness    OP_DUP OP_HASH160 0x14 <K> OP_EQUALVERIFY OP_CHECKSIG, or <H> alone (33-byte push)
+//	empty         (no bytes)
+//
+// Symbolic: Amount, the CSV field, the number of outputs, every output value (any int64), the
+// class and variant of every output.
+// ---------------------------------------------------------------------------------------
+
+const (
+	vScExact = iota
+	vScOtherVersion
+	vScOtherProgram
+	vScP2WPKH
+	vScNonWitness
+	vScEmpty
+	vScClasses
+)
+
+func vBtcFixedParams() *swap.OpeningParams {
+	return &swap.OpeningParams{
+		TakerPubkey:      "02752e1beeeeb6472959117a0aa5d172900680c033ddf86b1a8318311e2b10223f",
+		MakerPubkey:      "02c30ff537639962f493d326a77f1c6cb591ee3d21ca8d89194bb69cb288f497e8",
+		ClaimPaymentHash: "b94f26d422d5ce3a1e65dd4abb398d0d369aefe8f71d112c5591aa45eea1e75c",
+		Amount:           zzverif.U64("amount"),
+		CSV:              zzverif.U32("csv_field"),
+	}
+}
+
+func vBtcCopy(b []byte) []byte { return append([]byte(nil), b...) }
+
+// vBtcClassScript builds a script of the given class from the bytes of the expected script.
+// With rich=false only the first variant choices are drawn (fewer shapes for the quick tier).
+func vBtcClassScript(class int, expected []byte, versions []byte, rich bool) []byte {
+	h := expected[2:34]
+	switch class {
+	case vScExact:
+		return vBtcCopy(expected)
+	case vScOtherVersion:
+		s := vBtcCopy(expected)
+		s[0] = versions[zzverif.Choice("out.version", len(versions))]
+		return s
+	case vScOtherProgram:
+		s := vBtcCopy(expected)
+		flips := []int{2, 33, 17}
+		if !rich {
+			flips = flips[:2]
+		}
+		s[flips[zzverif.Choice("out.flip", len(flips))]] ^= 0xff
+		return s
+	case vScP2WPKH:
+		k := h[:20]
+		if rich && zzverif.Bool("out.keyhash_tail") {
+			k = h[12:]
+		}
+		return append([]byte{0x00, 0x14}, k...)
+	case vScNonWitness:
+		if rich && zzverif.Bool("out.bare_push") {
+			return append([]byte{0x20}, h...)
+		}
+		s := append([]byte{0x76, 0xa9, 0x14}, h[:20]...)
+		return append(s, 0x88, 0xac)
+	}
+	return []byte{}
+}
+
+// vBtcDrawClassTx draws a well-formed transaction of 0..maxOut outputs with class scripts.
+func vBtcDrawClassTx(expected []byte, maxOut int, versions []byte, rich bool) string {
+	vBtcOutputs = nil
+	vBtcParseFails = false
+	if len(expected) != 34 {
+		zzverif.Fail("expected script is not 34 bytes")
+	}
+	n := zzverif.Choice("tx.n", maxOut+1)
+	for i := 0; i < n; i++ {
+		o := vBtcOut{value: zzverif.I64("out.value")}
+		o.script = vBtcClassScript(zzverif.Choice("out.class", vScClasses), expected, versions, rich)
+		vBtcOutputs = append(vBtcOutputs, o)
+	}
+	if zzverif.Symbolic() {
+		zzverif.Override("(*github.com/btcsuite/btcd/wire.MsgTx).Deserialize", vBtcDeserialize)
+		return "00"
+	}
+	tx := wire.NewMsgTx(2)
+	tx.AddTxIn(wire.NewTxIn(wire.NewOutPoint(&chainhash.Hash{}, 0), nil, nil))
+	for _, o := range vBtcOutputs {
+		tx.AddTxOut(wire.NewTxOut(o.value, o.script))
+	}
+	var buf bytes.Buffer
+	if err := tx.Serialize(&buf); err != nil {
+		panic(err)
+	}
+	return hex.EncodeToString(buf.Bytes())
+}
+
+func vBtcValidateClasses(maxOut int, versions []byte, rich bool) {
+	zzverif.Unwind(64)
+	p := vBtcFixedParams()
+	b := NewBitcoinOnChain(nil, 0, 0, vBtcChain())
+	expected := vBtcExpectedScript(p)
+	txHex := vBtcDrawClassTx(expected, maxOut, versions, rich)
+
+	ok, err := b.ValidateTx(p, txHex)
+
+	if !ok {
+		zzverif.Reach("C01.btc_classes_reject")
+		return
+	}
+	zzverif.Assert(err == nil, "C01.btc_classes_true_has_no_error")
+	found := false
+	for _, o := range vBtcOutputs {
+		if o.value == int64(p.Amount) && bytes.Equal(o.script, expected) {
+			found = true
+			break
+		}
+	}
+	zzverif.Assert(found, "C01.btc_classes_accept_needs_amount_and_exact_script")
+}
+
+// H_C01_btcValidateTx_scriptClasses: ValidateTx = (true, nil) implies some output has Value =
+// Amount and PkScript exactly equal to the expected script, over transactions of 0..3 outputs
+// whose scripts are drawn from the classes above, each class at any position, any int64 value per
+// output.  Quick-tier variants: witness versions 1 and 16, first/last program byte inverted, one
+// p2wpkh and one non-witness form (8 shapes per output); every version 1..16 and all variants:
+// H_C01_T_btcValidateTx_scriptClassesAllVersions.
+func H_C01_btcValidateTx_scriptClasses() {
+	vBtcValidateClasses(3, []byte{0x51, 0x60}, false)
+}
+
+// H_C01_T_btcValidateTx_scriptClassesAllVersions: the same with every witness version OP_1..OP_16
+// and all variants (25 shapes per output), 0..2 outputs.
+func H_C01_T_btcValidateTx_scriptClassesAllVersions() {
+	vBtcValidateClasses(2, []byte{0x51, 0x52, 0x53, 0x54, 0x55, 0x56, 0x57, 0x58, 0x59, 0x5a, 0x5b, 0x5c, 0x5d, 0x5e, 0x5f, 0x60}, true)
 }
